@@ -75,7 +75,7 @@ def _is_e(base):
 class RefEval:
     """One evaluation context = one point."""
 
-    def __init__(self, env, lo=1e-100, hi=1e100, const_ulps=0.0, missing_ok=False):
+    def __init__(self, env, lo=1e-100, hi=1e100, const_ulps=0.0, missing_ok=False, keep_eps=False):
         """env: dict name -> int|float.  const_ulps: relative uncertainty (in units of u) given
         to float-typed Constants (used for expressions the library produced, whose constants
         may have been folded in double arithmetic)."""
@@ -83,6 +83,10 @@ class RefEval:
         self.lo = lo
         self.hi = hi
         self.const_ulps = const_ulps
+        # keep_eps: report the nominal rounding bound of a straightforward double evaluation even when
+        # every intermediate happens to be exact (used when the SAME value is recomputed in another
+        # association order, e.g. after constants were consolidated)
+        self.keep_eps = keep_eps
         self.memo = {}
         self.keep = []
         self.first_bad = None     # (model node, reason) of the first decided domain violation
@@ -101,7 +105,8 @@ class RefEval:
         if self._rng(v):
             return R(RANGE, why=("magnitude", M.text(m)[:80]))
         if q is not None:
-            eps = 0.0
+            if not self.keep_eps:
+                eps = 0.0
             v = to_mpf(q)
         if not (eps == eps) or eps == math.inf:
             return R(RANGE, why=("eps", M.text(m)[:80]))
